@@ -81,6 +81,12 @@ func searchCase(c *fw.Ctx, r *rand.Rand, i int, budget float64, maxDepth int) (r
 	if root.tag == "stalemate-resource" {
 		cfg = searchCfgs[[]int{2, 3, 4, 0}[r.Intn(4)]] // quiescence leaves mostly: the stalemate is met at or below the horizon
 	}
+	if (root.tag == "clock95+" || root.tag == "shuffled" || root.tag == "sparse-shuffled") && r.Intn(2) == 0 {
+		// draws by the clock or by repetition that arise below the horizon: the quiescence searches whose
+		// explorations include quiet moves (TUROCHAMP's considerable moves) must count them as zero too
+		cfg = searchCfgs[[]int{4, 4, 2, 3}[r.Intn(4)]]
+		c.Count("quiet_leaf_on_drawish_root", 1)
+	}
 	if root.tag == "matingnet" {
 		// forced mates of several lengths: full exploration, more depth
 		cfg = searchCfgs[[]int{0, 1, 2, 9}[r.Intn(4)]]
@@ -104,6 +110,23 @@ func searchCase(c *fw.Ctx, r *rand.Rand, i int, budget float64, maxDepth int) (r
 	}
 	if i%19 == 7 {
 		depth = 0 // the root itself is the horizon
+	}
+	if root.tag == "clock99-quiet-mate" {
+		// searched at depth 0 and 1 with leaves that look below the horizon, and at depth 1 with static leaves
+		cfg = searchCfgs[[]int{4, 4, 2, 0}[r.Intn(4)]]
+		depth = r.Intn(2)
+		if !cfg.quiet {
+			depth = 1
+		}
+		c.Count("clock99_quiet_mate_roots", 1)
+	}
+	if root.tag == "clock95+" && cfg.quiet {
+		// the hundredth ply falls on the first or second move below the horizon
+		fp := root.h.Final()
+		if d := 99 - fp.Half - r.Intn(2); d >= 0 && d <= 3 {
+			depth = d
+			c.Count("clock100_below_horizon", 1)
+		}
 	}
 	return root, cfg, depth, true
 }
@@ -731,7 +754,7 @@ func init() {
 			return mkCases(l, "movelist", 8, seed, pick(tier, 300, 20000))
 		},
 		Floors: func(string) map[string]int64 {
-			return map[string]int64{"drawn_arrival_searches": 200, "searches": 1500, "root_mate_for_ge3": 20, "root_mate_against_ge2": 5, "draw_inside_tree": 100, "stalemate_inside_tree": 50, "selective_pruned": 100, "drawn_root": 5, "moveless_root": 10, "movelists": 2000}
+			return map[string]int64{"drawn_arrival_searches": 200, "quiet_leaf_on_drawish_root": 100, "clock100_below_horizon": 20, "clock99_quiet_mate_roots": 20, "searches": 1500, "root_mate_for_ge3": 20, "root_mate_against_ge2": 5, "draw_inside_tree": 100, "stalemate_inside_tree": 50, "selective_pruned": 100, "drawn_root": 5, "moveless_root": 10, "movelists": 2000}
 		},
 		Run: runC03,
 	})
